@@ -45,10 +45,21 @@ type monitors struct {
 	hist map[string][]entry // group -> prescribed history
 	// ids the server generated for broadcast chats sent without id
 	fresh map[string]bool
+	// what GetChatHistory returned earlier (the list a joiner would be
+	// replaying, outside the group lock) and what it contained then
+	snaps map[string][]snapshot
 }
 
+type snapshot struct {
+	raw  []group.ChatHistoryEntry
+	copy []entry
+	when string
+}
+
+const keepSnapshots = 6
+
 func newMonitors(h *hist) *monitors {
-	return &monitors{h: h, tags: map[string]*tagInfo{}, hist: map[string][]entry{}, fresh: map[string]bool{}}
+	return &monitors{h: h, tags: map[string]*tagInfo{}, hist: map[string][]entry{}, fresh: map[string]bool{}, snaps: map[string][]snapshot{}}
 }
 
 var serverKinds = map[string]bool{"error": true, "kicked": true, "warning": true, "userinfo": true,
@@ -220,18 +231,53 @@ func (s snap) membersOf(g string) []*cl {
 	return out
 }
 
+func toEntries(raw []group.ChatHistoryEntry) []entry {
+	var out []entry
+	for _, e := range raw {
+		v, _ := e.Value.(string)
+		out = append(out, entry{id: e.Id, source: e.Source, user: e.User, kind: e.Kind, value: v})
+	}
+	return out
+}
+
 // the history galene holds, as entries
 func implHistory(g string) []entry {
 	gr := group.Get(g)
 	if gr == nil {
 		return nil
 	}
-	var out []entry
-	for _, e := range gr.GetChatHistory() {
-		v, _ := e.Value.(string)
-		out = append(out, entry{id: e.Id, source: e.Source, user: e.User, kind: e.Kind, value: v})
+	return toEntries(gr.GetChatHistory())
+}
+
+// snapshotHistory: GetChatHistory is what the replay on join iterates AFTER
+// the group lock is released, while other members chat, operators clear and
+// entries expire.  C15.replay_snapshot: a list it returned keeps its content
+// whatever happens to the history afterwards (checked over the next
+// keepSnapshots operations), so that a replay in progress is the in-order
+// history at the time of the join.
+func (mo *monitors) snapshotHistory(g string, what string) []entry {
+	gr := group.Get(g)
+	if gr == nil {
+		return nil
 	}
-	return out
+	t := mo.h.t
+	for _, s := range mo.snaps[g] {
+		t.Checked("C15.replay_snapshot")
+		if !sameEntries(toEntries(s.raw), s.copy) {
+			t.Fail("C15", "replay_snapshot", fmt.Sprintf("the history of %s returned to a joiner after %s was %v; after %s the same list reads %v: a replay in progress is no longer the in-order history",
+				g, s.when, entryIDs(s.copy), what, entryIDs(toEntries(s.raw))))
+			mo.snaps[g] = nil
+			break
+		}
+	}
+	raw := gr.GetChatHistory()
+	cp := toEntries(raw)
+	l := append(mo.snaps[g], snapshot{raw: raw, copy: cp, when: what})
+	if len(l) > keepSnapshots {
+		l = l[len(l)-keepSnapshots:]
+	}
+	mo.snaps[g] = l
+	return cp
 }
 
 func sameEntries(a, b []entry) bool {
@@ -254,7 +300,7 @@ func (mo *monitors) checkHistories(what string) {
 	t := mo.h.t
 	for _, g := range mo.h.groups {
 		t.Checked("C15.history_only_broadcast")
-		got := implHistory(g)
+		got := mo.snapshotHistory(g, what)
 		if len(got) > propMaxHistory {
 			t.Fail("C15", "history_only_broadcast", fmt.Sprintf("after %s the history of %s has %d entries", what, g, len(got)))
 		}
@@ -360,6 +406,9 @@ func (h *hist) sendChat(c *cl, m *smsg) {
 	}
 	t.Checked("C15.addressing")
 	for _, x := range h.cs {
+		if h.deadW[x] {
+			continue // its outbox can no longer be observed
+		}
 		n, first := countTagged(x.log[mark[x]:], m.Type, v)
 		want := 0
 		if expect[x] {
@@ -391,8 +440,13 @@ func (h *hist) sendChat(c *cl, m *smsg) {
 		}
 	}
 	t.Note("chat:" + classify(c, m, ti, userUnknown))
+	if len(h.deadW) > 0 {
+		t.Note("chat-with-dead-writer-member")
+	}
 
 	switch {
+	case h.deadW[c]:
+		// the sender cannot be told anything any more
 	case spoofSource || spoofUser:
 		t.Checked("C15.spoof_closes")
 		if sr.res.Class != "protocol" || !c.c.Dead || !hasClose(c.log[mark[c]:], "protocol") {
@@ -523,6 +577,9 @@ func (h *hist) sendClearchat(c *cl, m *smsg, id, userID string, malformed bool) 
 	}
 	// every member of the group is told, nobody else
 	for _, x := range h.cs {
+		if h.deadW[x] {
+			continue
+		}
 		n := 0
 		for _, mm := range x.log[mark[x]:] {
 			if mm.Type == "usermessage" && mm.Kind == "clearchat" {
